@@ -514,25 +514,38 @@ func (z *serializer) walk(v reflect.Value, depth int) {
 			z.w("nilm")
 			return
 		}
-		type kv struct{ k, v string }
+		// entries in the order of their serialised keys; pointers are numbered only while walking in THAT order, so
+		// that the numbering (and the text) does not depend on Go's map iteration order even when values are pointers
+		type kv struct {
+			k    string
+			key  reflect.Value
+			elem reflect.Value
+		}
 		var ents []kv
 		it := v.MapRange()
 		for it.Next() {
-			zk := &serializer{ids: z.ids, mask: nil, spare: z.spare, nocap: z.nocap}
+			scratch := z.ids
+			if !plainKind(v.Type().Key().Kind()) { // keys that may hold pointers: number them in a copy of the table
+				scratch = make(map[uintptr]int, len(z.ids))
+				for p, id := range z.ids {
+					scratch[p] = id
+				}
+			}
+			zk := &serializer{ids: scratch, mask: nil, spare: z.spare, nocap: z.nocap}
 			zk.walk(it.Key(), depth+1)
-			zv := &serializer{ids: z.ids, mask: z.mask, spare: z.spare, nocap: z.nocap}
-			zv.walk(it.Value(), depth+1)
-			ents = append(ents, kv{string(zk.buf), string(zv.buf)})
+			ents = append(ents, kv{string(zk.buf), it.Key(), it.Value()})
 		}
-		sort.Slice(ents, func(i, j int) bool { return ents[i].k < ents[j].k })
+		sort.SliceStable(ents, func(i, j int) bool { return ents[i].k < ents[j].k })
 		z.w("m{")
 		for i, e := range ents {
 			if i > 0 {
 				z.w(",")
 			}
-			z.w(e.k)
+			zk := &serializer{ids: z.ids, mask: nil, spare: z.spare, nocap: z.nocap}
+			zk.walk(e.key, depth+1)
+			z.buf = append(z.buf, zk.buf...)
 			z.w(":")
-			z.w(e.v)
+			z.walk(e.elem, depth+1)
 		}
 		z.w("}")
 	case reflect.Interface:
@@ -552,6 +565,15 @@ func (z *serializer) walk(v reflect.Value, depth int) {
 	default:
 		z.w("?")
 	}
+}
+
+func plainKind(k reflect.Kind) bool {
+	switch k {
+	case reflect.Bool, reflect.Int, reflect.Int8, reflect.Int16, reflect.Int32, reflect.Int64, reflect.Uint, reflect.Uint8, reflect.Uint16,
+		reflect.Uint32, reflect.Uint64, reflect.Uintptr, reflect.Float32, reflect.Float64, reflect.String:
+		return true
+	}
+	return false
 }
 
 func fpOf(s string) string {
